@@ -390,6 +390,41 @@ func (sg *sqlGen) ensurePayload() (name string, hasUnion bool) {
 				}
 			}
 		}
+		if rapid.IntRange(0, 3).Draw(sg.t, "iotaEnumWithAlias") == 0 {
+			// a plain iota enum that also has an unexported constant repeating a value (const defaultLevel = Medium):
+			// still iota-like (the exported members are 0,1,2), one more member than values
+			has := false
+			for _, f := range ti.d.Fields {
+				if f.Name == "Level" {
+					has = true
+				}
+			}
+			if !has {
+				for k := range g.used(sg.root) {
+					sg.used[k] = true
+				}
+				en := sg.fresh(sg.pick("aliasEnumName", []string{"Level", "Grade", "Rank"}) + "Kind")
+				g.used(sg.root)[en] = true
+				n := rapid.IntRange(2, 4).Draw(sg.t, "aliasEnumN")
+				blk := &Block{Grouped: true}
+				for i := 0; i < n; i++ {
+					cs := &ConstSpec{Names: []string{fmt.Sprintf("%s%c", en, 'A'+i)}, OfType: []string{en}, Vals: []string{fmt.Sprint(i)}}
+					if i == 0 {
+						cs.Type, cs.Exprs = en, []string{"iota"}
+					}
+					sg.used[cs.Names[0]] = true
+					g.used(sg.root)[cs.Names[0]] = true
+					blk.Specs = append(blk.Specs, cs)
+				}
+				dup := rapid.IntRange(0, n-1).Draw(sg.t, "aliasEnumDup")
+				alias := "default" + en
+				sg.other.Decls = append(sg.other.Decls, &Decl{Kind: KEnum, Name: en, Type: Basic("int")})
+				sg.other.Consts = append(sg.other.Consts, blk, &Block{Grouped: false, Specs: []*ConstSpec{{
+					Names: []string{alias}, Exprs: []string{blk.Specs[dup].Names[0]}, Vals: []string{fmt.Sprint(dup)}, OfType: []string{en}}}})
+				ti.d.Fields = append(ti.d.Fields, &Field{Name: "Level", Type: Ref(sg.root.Path, en)})
+				sg.o.class("json:iota_enum_with_unexported_duplicate")
+			}
+		}
 		if rapid.IntRange(0, 4).Draw(sg.t, "nestedBothWays") == 0 {
 			// the two nestings of a fixed array and a slice over one element type, in one document
 			has := map[string]bool{}
